@@ -3,45 +3,61 @@ sys.path.insert(0, os.path.dirname(os.path.abspath(__file__)))
 import aro_props
 
 
-def extra(ctx):
-    """End-to-end stage (notes/Pipeline.md): harness/cmd/pipeline wires the real AdjRIBIn -> LocRIB -> AdjRIBOut ->
-    UpdateSender objects as fsm_address_family.go does and drives multi-session histories; its spec oracle states
-    'peer view after drain = export of the selection over the union of the current announcements' directly;
-    ocaml/pipeline/pipeline_run.ml replays the same histories through the extracted composed model (Model/Pipeline.v)."""
+def _stage(ctx, name, corpus_id, n, extracted, driver):
+    """One end-to-end stream: Go harness (real code + spec oracle) and the extracted model replaying its trace."""
     vlib = ctx["vlib"]
     lines, stats = [], {}
-    ok, exe, log = vlib.build_harness("pipeline")
+    ok, exe, log = vlib.build_harness(name)
     if not ok:
-        return {"lines": ["HARNESS-ERROR pipeline harness does not build: " + log.strip()[-600:]], "stats": stats}
-    n = {"quick": 500, "thorough": 6000}[ctx["tier"]]
-    outdir = os.path.join(ctx["outdir"], "pipeline")
-    rc, out, trace, hstats = vlib.run_harness_once(exe, {"id": "Pipeline"}, ctx["tier"], ctx["seed"], "check", n, outdir, timeout=1500)
+        return ["HARNESS-ERROR %s harness does not build: %s" % (name, log.strip()[-600:])], stats
+    outdir = os.path.join(ctx["outdir"], name)
+    rc, out, trace, hstats = vlib.run_harness_once(exe, {"id": corpus_id}, ctx["tier"], ctx["seed"], "check", n, outdir, timeout=1500)
     hl = out.split("\n")
     lines += [l for l in hl if l.startswith("SPEC-VIOLATION") or l.startswith("HARNESS-ERROR")]
     if rc != 0 and not lines:
-        lines.append("HARNESS-ERROR pipeline harness exit=%d %s" % (rc, out.strip()[-400:]))
+        lines.append("HARNESS-ERROR %s harness exit=%d %s" % (name, rc, out.strip()[-400:]))
     ncases, distinct, samples = vlib.trace_stats(trace)
-    stats.update({"evaluations": ncases, "pipeline_cases": ncases, "pipeline_distinct_nontrivial": distinct,
-                  "pipeline_distribution": hstats.get("distribution", {}), "pipeline_samples": [s[:600] for s in samples[:1]]})
-    mprop = {"modelrun": {"name": "pipeline", "extracted": ["pipeline_model"], "driver": "ocaml/pipeline/pipeline_run.ml"}}
+    stats.update({name + "_cases": ncases, name + "_distinct_nontrivial": distinct,
+                  name + "_distribution": hstats.get("distribution", {}), name + "_samples": [s[:600] for s in samples[:1]]})
+    mprop = {"modelrun": {"name": name, "extracted": [extracted], "driver": driver}}
     mok, mexe, mlog = vlib.build_modelrun(mprop)
     if not mok:
-        lines.append("MODEL-ERROR pipeline modelrun does not build: " + (mlog or "")[-400:])
-        return {"lines": lines, "stats": stats}
+        lines.append("MODEL-ERROR %s modelrun does not build: %s" % (name, (mlog or "")[-400:]))
+        return lines, stats
     rc, mout = vlib.run_modelrun(mexe, trace)
     for l in mout.split("\n"):
         if l.startswith("CORR-MISMATCH") or l.startswith("MODEL-ERROR"):
             lines.append(l)
         if l.startswith("STATS "):
-            stats["pipeline_model_stats"] = l
+            stats[name + "_model_stats"] = l
     if rc != 0 and not any(l.startswith("CORR-MISMATCH") for l in lines):
-        lines.append("MODEL-ERROR pipeline modelrun exit=%d %s" % (rc, mout.strip()[-300:]))
-    return {"lines": lines, "stats": stats}
+        lines.append("MODEL-ERROR %s modelrun exit=%d %s" % (name, rc, mout.strip()[-300:]))
+    return lines, stats
+
+
+def extra(ctx):
+    """End-to-end stages (notes/Pipeline.md).
+    pipeline: harness/cmd/pipeline wires the real AdjRIBIn -> LocRIB -> AdjRIBOut -> UpdateSender objects as
+    fsm_address_family.go does and drives multi-session histories; its spec oracle states 'peer view after drain =
+    export of the selection over the union of the current announcements' directly; ocaml/pipeline/pipeline_run.ml
+    replays the same histories through the extracted composed model (Model/Pipeline.v).
+    speaker: harness/cmd/speaker steps several real session FSMs in Established on one VRF / Loc-RIB, feeds them BYTES
+    and captures the BYTES they write; the oracle works from the input bytes (independent reference decoder);
+    ocaml/speaker/speaker_run.ml replays the same bytes through the extracted wire-to-wire model (Model/Speaker.v)."""
+    lines, stats = _stage(ctx, "pipeline", "Pipeline", {"quick": 500, "thorough": 6000}[ctx["tier"]],
+                          "pipeline_model", "ocaml/pipeline/pipeline_run.ml")
+    stats["evaluations"] = stats.get("pipeline_cases", 0)
+    l2, s2 = _stage(ctx, "speaker", "Speaker", {"quick": 600, "thorough": 8000}[ctx["tier"]],
+                    "speaker_model", "ocaml/speaker/speaker_run.ml")
+    stats.update(s2)
+    stats["evaluations"] += s2.get("speaker_cases", 0)
+    return {"lines": lines + l2, "stats": stats}
 
 
 PROP = {
     "id": "C08",
-    "coq_targets": ["Properties/C08.vo", "Extract/AroExtract.vo", "Properties/Pipeline.vo", "Extract/PipelineExtract.vo"],
+    "coq_targets": ["Properties/C08.vo", "Extract/AroExtract.vo", "Properties/Pipeline.vo", "Extract/PipelineExtract.vo",
+                    "Extract/SpeakerExtract.vo"],
     "more_properties_files": ["Properties/Pipeline.v"],
     "extra": extra,
     "properties_file": "Properties/C08.v",
